@@ -20,6 +20,23 @@ for p in props:
         if not m:
             return default
         return "".join(re.findall(r'"([^"\n]*)"', m.group(1)))
+    import ast
+    tree = ast.parse(src)
+    doc = (ast.get_docstring(tree) or "").strip()
+    first_par = " ".join(doc.split("\n\n")[0].split()) if doc else ""
+    rest = " ".join(" ".join(doc.split("\n\n")[1:3]).split())[:700] if doc else ""
+    assumptions = []
+    for node in tree.body:
+        if isinstance(node, ast.Assign) and getattr(node.targets[0], "id", "") == "ASSUMPTIONS":
+            try:
+                assumptions = [str(x) for x in ast.literal_eval(node.value)]
+            except Exception:
+                pass
+    auto_text = ("Runtime monitoring at exploration level: the real abTEM code is executed on seeded generated and hostile inputs "
+                 "while independent oracles observe every execution; verdict = held on the executions listed in the evidence. "
+                 + rest)
+    auto_note = ("Trusted base: numpy/scipy/dask as reference implementations and the oracle in vf/props/%s.py; CPU backend only; "
+                 "inputs not generated are not covered. " % pid.lower()) + " ".join(assumptions)[:900]
     checks.append({
         "property_id": pid,
         "quick_cmd": "./check %s --tier quick" % pid,
@@ -29,10 +46,10 @@ for p in props:
         "engine": "vf-runtime-monitors",
         "level_claimed": {
             "category": "exploration",
-            "text": grab("LEVEL_TEXT", "Runtime monitoring: the real abTEM functions are run on generated and hostile inputs while oracles (independent float64 reference models / differential executions / hooked invariants) watch every execution; the verdict is 'held on the executions listed in the evidence', which is the strongest claim this family supports for an all-inputs property."),
+            "text": grab("LEVEL_TEXT", auto_text),
             "design_ref": "DESIGN.md section 3, " + pid,
         },
-        "level_note": grab("LEVEL_NOTE", "Trusts numpy/scipy/dask as reference implementations and the oracle written in vf/props/%s.py; covers CPU backend only; says nothing about inputs not generated." % pid.lower()),
+        "level_note": grab("LEVEL_NOTE", auto_note),
         "technique": grab("TECHNIQUE", "runtime monitoring with reference-model oracle over generated workloads"),
     })
 man = {
